@@ -162,6 +162,11 @@ var c06Reqs = []c06Req{
 		[]map[string]interface{}{v("h", true, "t", "A"), v("h", false, "t", "A"), v("h", false, "t", "B"), v("h", true, "t", "B")}, nil},
 	{"abs-dir-var-list", `query($h:Boolean!){ nodes(n:3) { id ... @skip(if:$h) { name } ... on B { peer { id @skip(if:$h) name } } } }`, "",
 		[]map[string]interface{}{v("h", true), v("h", false)}, nil},
+	// the merged selection of an abstract field depends on the parent's runtime type
+	{"abs-merge-var", `query($t:String){ node(as:$t) { peer(as:"B") { id } ... on A { peer(as:"B") { ... on B { bOnly } } } ... on C { peer(as:"B") { name } } } }`, "",
+		[]map[string]interface{}{v("t", "A"), v("t", "B"), v("t", "C")}, nil},
+	{"abs-merge-lit-A", `{ node(as:"A") { peer(as:"B") { id } ... on A { peer(as:"B") { ... on B { bOnly } } } ... on C { peer(as:"B") { name } } } }`, "", nil, nil},
+	{"abs-merge-lit-C", `{ node(as:"C") { peer(as:"B") { id } ... on A { peer(as:"B") { ... on B { bOnly } } } ... on C { peer(as:"B") { name } } } }`, "", nil, nil},
 	// valid for one of the two schemas only (world B has the root field onlyB)
 	{"only-b", `{ x1 onlyB }`, "", nil, nil},
 	{"only-b-lit", `{ onlyB echo(i:1) }`, "", nil, nil},
